@@ -58,8 +58,12 @@ let verdict case impl =
     let (m_ord, m_left) = rs_ordered dcf rackf g pre t s in
     let s0 = replicas_for dcf rackf g [] t strat dc in
     let m_np = rs_iter dcf rackf g [] t s0 in
+    let seqs = [ [INext; INth (nat_of_int 1); INext; INth (nat_of_int 0); INth (nat_of_int 2); INext];
+                 [INth (nat_of_int 0); INth (nat_of_int 0); INext; INth (nat_of_int 3); INext];
+                 [INext; INext; INth (nat_of_int 5); INext; INth (nat_of_int 0)] ] in
+    let m_ops = List.map (fun sq -> rs_run dcf rackf g pre t s sq) seqs in
     (match impl with
-     | [len; iter; nth; choose; cf; ordered; ep; np] ->
+     | [len; iter; nth; choose; cf; ordered; ep; np; ops] ->
        let o_len = int_of_string ("0x" ^ len) and o_iter = ids_of iter and o_np = ids_of np in
        let o_nth = List.map opt_n (split_on ',' nth) in
        let exact = String.length choose > 0 && choose.[0] = 'E' in
@@ -68,8 +72,9 @@ let verdict case impl =
        let o_cf = opt_n cf in
        let o_ord = if ordered = "panic" then None else Some (ids_of ordered) in
        let o_ep = if ep = "x" then None else Some (ids_of ep) in
+       let o_ops = List.map (fun f -> List.map opt_n (split_on ',' f)) (String.split_on_char '/' ops) in
        (* --- agreement with the model (exact; choose through the index it was scripted with,
-              choose_filtered through membership: C04_views gives choose i = nth i (iter)) --- *)
+              choose_filtered through membership: C04_views_choose gives choose i = nth i (iter)) --- *)
        let agree =
          o_len = m_len && o_iter = m_iter && o_nth = m_nth
          && (if exact then o_choose = m_choose
@@ -79,40 +84,36 @@ let verdict case impl =
              | None -> not (List.exists (fun x -> int_of_n x mod 2 = 1) m_iter))
          && (match o_ord with Some l -> m_left = [] && l = m_ord | None -> m_left <> [])
          && (match o_ep with Some l -> l = m_iter | None -> true)
-         && o_np = m_np in
-       (* --- the property on the implementation's own output --- *)
-       let same_nodes l = same_set l o_iter in
-       let views_ok () =
+         && o_np = m_np && o_ops = m_ops in
+       (* model agrees: the theorems of Props/C04.v give the property (C04_placement_model,
+          C04_views_*, C04_ordered_model, C04_views_ops, C04_precomputed_any) *)
+       if agree then "ok" else
+       (* --- otherwise: the property on the implementation's own output.  Which comparison the
+              property demands per view: the replicas are a SET of nodes (into_iter's order is not
+              promised) -> placement_ok / same_set; size, nth, choose, interleaved next/nth must
+              describe the iterated sequence; get_token_endpoints and the non-precomputed answer
+              the same set; only into_replicas_ordered has an order: the ring's (ordered_ok). --- *)
+       let spec = spec_replicas dcf rackf g t strat dc in
+       let views_ok =
          o_len = List.length o_iter
          && nodupb o_iter
          && List.for_all2 (fun k v -> v = List.nth_opt o_iter k) (List.init (List.length o_nth) (fun k -> k)) o_nth
          && List.length o_choose = o_len
          && List.for_all (function Some x -> mem x o_iter | None -> false) o_choose
          && (match o_cf with Some x -> mem x o_iter | None -> true)
-         && (match o_ord with Some l -> same_nodes l | None -> false)
-         && (match o_ep with Some l -> l = o_iter | None -> true) in
-       let pre_ok () = same_set o_np o_iter || (o_np = [] && o_iter = []) in
-       (* placement against the specification (definite on every ring: C04_replicas_any_ring) *)
-       let spec_defined () = true in
-       let spec = lazy (spec_replicas dcf rackf g t strat dc) in
-       let spec_ok () = (not (spec_defined ())) || o_iter = Lazy.force spec
-                     || (match strat, dc with NTS _, None -> same_set o_iter (Lazy.force spec) | _ -> false) in
-       let fails_of () = (if views_ok () then [] else ["views"]) @ (if pre_ok () then [] else ["precomputed"])
-                   @ (if spec_ok () then [] else ["placement"]) in
-       (* model agrees: the theorems of Props/C04.v give the property (repeated tokens included) *)
-       if agree then "ok" else
-       let fails = fails_of () in
-       if agree then begin
-         if fails = [] then "ok"
-         else "viol model-agrees " ^ String.concat "," fails
-       end else begin
-         let detail = Printf.sprintf "model: len=%x iter=%s nth=%s choose=%s ordered=%s np=%s spec=%s"
-             m_len (str_ids m_iter) (String.concat "," (List.map str_opt m_nth))
-             (String.concat "," (List.map str_opt m_choose))
-             (if m_left = [] then str_ids m_ord else "panic") (str_ids m_np) (str_ids (Lazy.force spec)) in
-         if fails = [] then "diff " ^ detail
-         else "viol " ^ String.concat "," fails ^ " " ^ detail
-       end
+         && (List.length o_ops = List.length seqs && List.for_all2 (fun sq o -> o = list_run sq o_iter) seqs o_ops)
+         && (match o_ep with Some l -> same_set l o_iter || (l = [] && o_iter = []) | None -> true) in
+       let ordered_okb = match o_ord with Some l -> ordered_ok g t o_iter l | None -> false in
+       let pre_ok = same_set o_np o_iter in
+       let place_ok = placement_ok spec o_iter in
+       let fails = (if views_ok then [] else ["views"]) @ (if ordered_okb then [] else ["ordered"])
+                   @ (if pre_ok then [] else ["precomputed"]) @ (if place_ok then [] else ["placement"]) in
+       let detail = Printf.sprintf "model: len=%x iter=%s nth=%s choose=%s ordered=%s np=%s spec=%s"
+           m_len (str_ids m_iter) (String.concat "," (List.map str_opt m_nth))
+           (String.concat "," (List.map str_opt m_choose))
+           (if m_left = [] then str_ids m_ord else "panic") (str_ids m_np) (str_ids spec) in
+       if fails = [] then "diff " ^ detail
+       else "viol " ^ String.concat "," fails ^ " " ^ detail
      | ["panic"] -> "viol panic"
      | _ -> "error bad-impl-output")
   | _ -> "error unknown-case"
